@@ -7,6 +7,7 @@ import importlib
 import json
 import os
 import pkgutil
+import re
 import sys
 import time
 
@@ -35,7 +36,19 @@ def collect(spec):
     from . import engines as engpkg
     engs = []
     for m in sorted(pkgutil.iter_modules(engpkg.__path__), key=lambda x: x.name):
-        mod = importlib.import_module("vlib.engines." + m.name)
+        try:
+            mod = importlib.import_module("vlib.engines." + m.name)
+        except Exception as ex:  # a broken registration file of an engine that serves OTHER properties must not take this check down
+            src = ""
+            try:
+                src = open(os.path.join(os.path.dirname(engpkg.__file__), m.name + ".py"), errors="replace").read()
+            except OSError:
+                pass
+            mm = re.search(r"['\"]serves['\"]\s*:\s*\[([^\]]*)\]", src)
+            if mm is None or prop in re.findall(r"C\d\d", mm.group(1)):
+                raise
+            sys.stderr.write("WARNING: engine registration vlib/engines/%s.py does not load (%s); it does not serve %s, skipped\n" % (m.name, ex, prop))
+            continue
         e = getattr(mod, "ENGINE", None)
         if e and prop in e.get("serves", []):
             engs.append(e)
